@@ -19,7 +19,8 @@ sys.path.insert(0, os.path.dirname(os.path.abspath(__file__)))
 import common as K  # noqa: E402
 import gennet  # noqa: E402
 import lpexact  # noqa: E402
-import lpcheck  # noqa: E402
+import lpcheck  # noqa: E402,F401
+import lpcheck_fva  # noqa: E402
 
 sys.path.insert(0, os.path.join(K.REPO, "src"))
 
@@ -37,7 +38,10 @@ CODES = {1: "model and implementation differ: one raises / returns a malformed t
          4: "a reported minimum exceeds the reported maximum",
          5: "an optimal FBA solution lies outside the reported ranges",
          6: "a loopless range is not inside the plain range",
-         7: "a loopless minimum/maximum is not the true extreme over loop-free flux distributions",
+         7: "a loopless range is wider than the true range over loop-free flux distributions (a reported extreme is "
+            "only attained with an internal cycle)",
+         12: "a loopless range is narrower than the true range over loop-free flux distributions (a loop-free "
+             "distribution is cut off)",
          8: "flux_variability_analysis raises although the model is feasible and the admitted set is non-empty "
             "(the parsimonious step is infeasible)",
          9: "exact oracle certificate rejected (harness fault)",
@@ -326,17 +330,17 @@ def case_term(case):
     if case["pfba"] is not None:
         a = pfba_arg()
         fb = (frac if a is None else a) * opt
+        aterm = "PfbaSameFraction" if a is None else "(PfbaConst %s)" % gennet.q(a)
         r = lpexact.certified(pfba_lp(net, bound, fb))
         if r[0] == "optimal":
-            ms = -lpexact.dot([F(-1)] * (2 * len(net["rxns"])), r[1]) * -1
             ms = sum(r[1][:2 * len(net["rxns"])], ZERO)
             cap = F(case["pfba"]) * ms
-            pterm = "(Some (%s, POpt %s %s))" % (gennet.q(F(case["pfba"])), vec(r[1]), vec(r[2]))
+            pterm = "(Some (%s, %s, POpt %s %s))" % (gennet.q(F(case["pfba"])), aterm, vec(r[1]), vec(r[2]))
         elif r[0] == "infeasible":
             pf_infeasible = True
-            pterm = "(Some (%s, PInf %s))" % (gennet.q(F(case["pfba"])), vec(r[1]))
+            pterm = "(Some (%s, %s, PInf %s))" % (gennet.q(F(case["pfba"])), aterm, vec(r[1]))
         else:
-            pterm = "(Some (%s, PInf []))" % gennet.q(F(case["pfba"]))
+            pterm = "(Some (%s, %s, PInf []))" % (gennet.q(F(case["pfba"])), aterm)
     certs = []
     widths = []
     n_unb = 0
@@ -390,10 +394,32 @@ def case_term(case):
                             "loopfree_scope_empty": ll_empty > 0, "outcome": impl.split(" ")[0].strip("(")}}
 
 
+def has_internal_cycle(net):
+    """the internal stoichiometry has a non-zero null vector (some sign pattern of the internal reactions is a cycle)"""
+    internal = internal_idx(net)
+    if not internal:
+        return False
+    idx = {m: i for i, m in enumerate(net["mets"])}
+    s_int = [[ZERO] * len(internal) for _ in net["mets"]]
+    for k, i in enumerate(internal):
+        for met, v in net["rxns"][i]["st"].items():
+            s_int[idx[met]][k] = F(v)
+    for k in range(len(internal)):
+        lp = {"vb": [(F(-1), F(1))] * len(internal), "rows": [(row, ZERO, ZERO) for row in s_int],
+              "obj": [F(1) if i == k else ZERO for i in range(len(internal))]}
+        r = lpexact.certified(lp)
+        if r[0] == "optimal" and r[1][k] > 0:
+            return True
+    return False
+
+
 def signature(case, codes):
     return {"codes": [c for c in codes if c != 9], "pfba": case.get("pfba") is not None,
-            "loopless": bool(case.get("loopless"))}
+            "loopless": bool(case.get("loopless")),
+            "internal_cycle": has_internal_cycle(case["net"]) if case.get("loopless") else False}
 
 
 if __name__ == "__main__":
-    sys.exit(lpcheck.main(sys.modules[__name__]))
+    # the correspondence functions do not depend on the generated tables: build them first, so that a source
+    # shape the translator no longer recognises (Properties/C05.v then fails) still gets a failing-input search
+    sys.exit(lpcheck_fva.main(sys.modules[__name__]))
